@@ -416,7 +416,7 @@ func (fr *Frame) havocResult(cc *ssa.CallCommon, pos token.Pos) Val {
 func (fr *Frame) havocCall(cc *ssa.CallCommon, args []Val, heap bool, pos token.Pos) Val {
 	fr.bumpTop()
 	if heap {
-		fr.R.Heap.HavocAll(fr.st)
+		fr.havocAllHeap()
 	}
 	return fr.havocResult(cc, pos)
 }
@@ -459,7 +459,7 @@ func (fr *Frame) havocExternal(cc *ssa.CallCommon, args []Val) {
 		case *types.Map:
 			h.Havoc(fr.st, mapDomComp(u))
 			h.Havoc(fr.st, mapValComp(u))
-			h.Havoc(fr.st, mapLenComp)
+			h.Havoc(fr.st, mapLenComp(u))
 			visit(u.Elem(), depth+1)
 		case *types.Struct:
 			for i := 0; i < u.NumFields(); i++ {
@@ -485,7 +485,7 @@ func (fr *Frame) havocExternal(cc *ssa.CallCommon, args []Val) {
 		visit(a.Type(), 0)
 	}
 	if all {
-		h.HavocAll(fr.st)
+		fr.havocAllHeap()
 	}
 }
 
@@ -709,7 +709,7 @@ func (fr *Frame) applyContractVars(c *Contract, fn *ssa.Function, cc *ssa.CallCo
 	// effects
 	switch {
 	case c.ModAll:
-		fr.R.Heap.HavocAll(fr.st)
+		fr.havocAllHeap()
 	default:
 		if c.HavocExt {
 			for _, n := range fr.R.Heap.Names() {
@@ -842,12 +842,12 @@ func (fr *Frame) havocTarget(ctx *EvalCtx, e Expr) {
 			dn, vn := mapDomComp(mt), mapValComp(mt)
 			d := h.Get(fr.st, dn, ArraySort(SInt, ArraySort(ks, SBool)))
 			v := h.Get(fr.st, vn, ArraySort(SInt, ArraySort(ks, vs)))
-			l := h.Get(fr.st, mapLenComp, ArraySort(SInt, SInt))
+			l := h.Get(fr.st, mapLenComp(mt), ArraySort(SInt, SInt))
 			h.Set(fr.st, dn, fr.define("h", Store(d, x.T, fr.R.Sc.FreshConst("dom", ArraySort(ks, SBool)))))
 			h.Set(fr.st, vn, fr.define("h", Store(v, x.T, fr.R.Sc.FreshConst("val", ArraySort(ks, vs)))))
 			nl := fr.R.Sc.FreshConst("len", SInt)
 			fr.R.Sc.Assume(Le(IntLit(0), nl))
-			h.Set(fr.st, mapLenComp, fr.define("h", Store(l, x.T, nl)))
+			h.Set(fr.st, mapLenComp(mt), fr.define("h", Store(l, x.T, nl)))
 			return
 		case "fields":
 			// fields(T.f): the whole field component
@@ -881,7 +881,7 @@ func (fr *Frame) havocTarget(ctx *EvalCtx, e Expr) {
 				ctx.fail("reach(%s): unknown argument", name)
 			}
 			if _, isIface := types.Unalias(ty).Underlying().(*types.Interface); isIface {
-				h.HavocAll(fr.st)
+				fr.havocAllHeap()
 				return
 			}
 			var root Term
@@ -978,7 +978,7 @@ func (fr *Frame) reachComps(t types.Type) []string {
 			out = append(out, elemsComp(u.Elem()))
 			visit(u.Elem(), depth+1)
 		case *types.Map:
-			out = append(out, mapDomComp(u), mapValComp(u), mapLenComp)
+			out = append(out, mapDomComp(u), mapValComp(u), mapLenComp(u))
 			visit(u.Elem(), depth+1)
 		case *types.Struct:
 			for i := 0; i < u.NumFields(); i++ {
@@ -1129,7 +1129,7 @@ func (fr *Frame) sortedKeysIdiom(fn *ssa.Function, cc *ssa.CallCommon) *Val {
 	fr.assume(T(fmt.Sprintf("(forall ((%s %s)) (! (=> (select %s %s) (exists ((%s Int)) (and (<= %s %s) (< %s (+ %s %s)) (= (select %s %s) %s)))) :pattern ((select %s %s))))",
 		k, ks, dom.S, k, i, off.S, i, i, off.S, n.S, row.S, i, k, dom.S, k), SBool))
 	fr.assume(Implies(Eq(m, Nil), Eq(n, IntLit(0))))
-	fr.assume(Eq(n, Ite(Eq(m, Nil), IntLit(0), fr.mapLen(m))))
+	fr.assume(Eq(n, Ite(Eq(m, Nil), IntLit(0), fr.mapLen(m, mt))))
 	// the result has a private backing array
 	fr.assume(Implies(Lt(IntLit(0), n), Lt(fr.entryTop(), app(SInt, "s-arr", res))))
 	v := TV(res)
